@@ -45,6 +45,8 @@ CORPUS = [
     [("struct AH { uint8 _; uint16 _; uint8 a; };", ["AH"], [])],
     [("#define len 4\n", ["len"], []), ("struct HasConst { uint8 a[len]; uint8 t; };", ["HasConst"], ["len"]), ("struct HasField { uint8 len; uint8 data[len]; uint8 t; };", ["HasField"], ["len"]),
      ("struct HasConst2 { uint16 b[len]; };", ["HasConst2"], ["len"])],
+    [("struct flags { uint8 a; };", ["flags"], []), ("struct enum_entry { flags f; uint32 flag_dirty : 1; uint32 enum_rest : 31; };", ["enum_entry"], ["flags"]),
+     ("union flagword { uint16 w; uint8 b[2]; };", ["flagword"], []), ("struct after_them { flagword fw; enum_entry e; };", ["after_them"], ["flagword", "enum_entry"])],
     [("struct CM1 { uint8 a; /* one */ uint8 b; };", ["CM1"], []), ("/* between */ struct CM2 { uint16 c; }; /* after */", ["CM2"], []), ("struct CM3 { uint8 d; // tail\n };", ["CM3"], [])],
     [("typedef struct { uint8 v; } *PAI, AI;", ["AI"], [])] if False else [("typedef struct { uint8 v; } AI;", ["AI"], [])],
     [("struct AJ {\n    uint8 a;   // first\n    uint16 b;  /* second */\n    /* uint8 gone; */\n    uint8 c;\n};", ["AJ"], [])],
@@ -417,8 +419,99 @@ def alias_histories(tier) -> JobResult:
     return res
 
 
+def load_kwargs_histories(tier) -> JobResult:
+    """Sequences of load() calls with different keyword arguments on ONE cstruct object: every definition gets the layout and reader
+    it gets when loaded alone with the same keywords into a fresh object."""
+    from dissect.cstruct import cstruct
+
+    res = JobResult()
+    defs_ = ["struct KA { uint8 a; uint64 b; uint16 c; };", "struct KB { uint16 x; uint32 y; uint8 z; };", "struct KC { uint8 p; uint8 q : 4; uint8 r : 4; uint32 s; };"]
+    kws = [dict(align=a, compiled=c) for a in (False, True) for c in (False, True)]
+    alone = {}
+    for d in defs_:
+        for kw in kws:
+            alone[(d, kw["align"], kw["compiled"])] = load_sig(d, **kw)
+    depth = 2 if tier == "quick" else 3
+    for seq in itertools.product(range(len(kws)), repeat=depth):
+        for order in itertools.permutations(range(len(defs_)), depth):
+            cs = cstruct()
+            res.evaluations += 1
+            res.states += 1
+            res.traces += 1
+            res.nontrivial += 1
+            hist = []
+            try:
+                for k, di in zip(seq, order):
+                    cs.load(defs_[di], **kws[k])
+                    hist.append((defs_[di].split()[1], kws[k]))
+                    res.transitions += 1
+                sig = signature(cs, *empty())
+            except Exception as e:  # noqa: BLE001
+                res.violations.append(Violation("load-kwargs:raises", "load-kwargs:raises", {"loads": hist}, f"loads {hist}: {impl.exc_sig(e)} {e!r}"))
+                continue
+            for k, di in zip(seq, order):
+                name = "T:" + defs_[di].split()[1]
+                exp = alone[(defs_[di], kws[k]["align"], kws[k]["compiled"])][name]
+                if sig.get(name) != exp:
+                    res.violations.append(Violation("load-kwargs:sticky", "load-kwargs:sticky", {"loads": hist}, f"loads {hist}: {name} is {sig.get(name)}, loaded alone with the same keywords it is {exp}"))
+                    break
+    res.samples.append({"load_kwargs": [str(k) for k in kws], "definitions": defs_})
+    return res
+
+
+REDECLARATIONS = [
+    # (first, second, second must be rejected?)
+    ("struct SN { uint8 a; };", "typedef struct SN { uint16 b; } SNalias;", True),
+    ("typedef uint32 SN;", "typedef struct SN { uint16 b; } SNalias;", True),
+    ("enum SN : uint8 { A };", "typedef struct SN { uint16 b; } SNalias;", True),
+    ("typedef struct SN { uint16 b; } SNalias;", "struct SN { uint8 a; };", True),
+    ("struct SN { uint8 a; };", "struct SN { uint8 a; uint8 b; };", True),
+    ("struct SN { uint8 a; };", "enum SN : uint8 { A };", True),
+    ("typedef uint32 SN;", "typedef uint32 SN;", False),
+    ("typedef uint32 SN;", "typedef unsigned int SN;", False),
+    ("typedef uint32 SN;", "typedef DWORD SN;", False),
+    ("typedef uint32 SN;", "typedef uint16 SN;", True),
+    ("struct SN { uint8 a; };", "typedef SN SN2;", False),
+]
+
+
+def redeclarations(tier) -> JobResult:
+    """Re-declaring a name is accepted only for the same target - in one load() call or in two."""
+    from dissect.cstruct import cstruct
+
+    res = JobResult()
+    for first, second, must_reject in REDECLARATIONS:
+        for mode in ("one-load", "two-loads"):
+            cs = cstruct()
+            res.evaluations += 1
+            res.states += 1
+            res.nontrivial += 1
+            res.transitions += 2
+            try:
+                if mode == "one-load":
+                    before = None
+                    cs.load(first + "\n" + second)
+                else:
+                    cs.load(first)
+                    before = cs.resolve("SN")
+                    cs.load(second)
+                rejected = False
+            except Exception as e:  # noqa: BLE001
+                rejected = True
+                err = e
+            case = {"redeclare": [first, second], "mode": mode}
+            if must_reject and not rejected:
+                res.violations.append(Violation("redeclare:accepted", "redeclare:accepted", case, f"{first!r} then {second!r} ({mode}): the conflicting re-declaration was accepted; SN is now {cs.resolve('SN')!r}"))
+            elif not must_reject and rejected:
+                res.violations.append(Violation("redeclare:same-target-rejected", "redeclare:rejected", case, f"{first!r} then {second!r} ({mode}): {impl.exc_sig(err)} {err!r}"))
+            elif must_reject and mode == "two-loads" and before is not None and cs.resolve("SN") is not before:
+                res.violations.append(Violation("redeclare:rebound", "redeclare:rebound", case, f"{first!r} then {second!r}: rejected, but SN is now bound to {cs.resolve('SN')!r}"))
+    res.samples.append({"redeclarations": [r[:2] for r in REDECLARATIONS]})
+    return res
+
+
 def jobs(tier):
-    out = [("aliases", tier), ("alias-histories", tier)]
+    out = [("aliases", tier), ("alias-histories", tier), ("load-kwargs", tier), ("redeclare", tier)]
     for ci in range(len(CORPUS)):
         out.append(("insert", tier, ci))
         out.append(("orders", tier, ci))
@@ -430,6 +523,10 @@ def run(job) -> JobResult:
         return aliases(job[1])
     if job[0] == "alias-histories":
         return alias_histories(job[1])
+    if job[0] == "load-kwargs":
+        return load_kwargs_histories(job[1])
+    if job[0] == "redeclare":
+        return redeclarations(job[1])
     res = JobResult()
     kind, tier, ci = job
     if kind == "insert":
@@ -457,12 +554,16 @@ def replay(case):
         return res.violations
     if "history" in case:
         return [v for v in alias_histories("thorough").violations if v.case == case]
+    if "loads" in case:
+        return load_kwargs_histories("thorough").violations
+    if "redeclare" in case:
+        return [v for v in redeclarations("thorough").violations if v.case == case]
     return aliases("thorough").violations
 
 
 def meta(tier):
     return {
-        "rule": "for each of 30 corpus texts (struct, union, nested/anonymous members, bit-fields, pointers, multi-dimensional and dynamic arrays, enum/flag with base and "
+        "rule": "for each of 31 corpus texts (struct, union, nested/anonymous members, bit-fields, pointers, multi-dimensional and dynamic arrays, enum/flag with base and "
         "expressions, anonymous enum, typedef chains and multi-name typedefs, #define chains, config flags, multi-word C types, identifiers starting with keywords, "
         "self reference, quoted strings with comment markers): EVERY token boundary found by an independent lexer (bracket interiors, #define lines and #[..] flags are "
         "single tokens) x 10 insertions (blank, tab, newline, comment forms incl. a comment containing definition syntax and comments containing the other comment marker); every dependency-respecting permutation of "
